@@ -321,6 +321,8 @@ def child_main(rfd, wfd, vp):
             os.dup2(devnull.fileno(), 2)
         except OSError:
             pass
+        if vp.get("cwd"):
+            os.chdir(vp["cwd"])
         install(vp)
         CH.call(op="begin")
         kind = vp["kind"]
